@@ -29,7 +29,7 @@ func init() {
 		},
 		MinDistinct: map[string]int{"quick": 5000, "thorough": 1000000},
 		MinCounters: map[string]map[string]int64{
-			"quick":    {"leaves_filled_and_compared": 30000, "empty_translated_value_checks": 8000, "chains_with_type_changing_mangler": 4000},
+			"quick":    {"leaves_filled_and_compared": 30000, "empty_translated_value_checks": 8000, "chains_with_type_changing_mangler": 4000, "empty_value_checks_flatten_with_nested_interface_leaf": 300},
 			"thorough": {"leaves_filled_and_compared": 5000000},
 		},
 		Plan: func(tier string) fw.Plan {
@@ -60,9 +60,12 @@ var parsingDur = func() transform.Mangler {
 	return m
 }()
 
-func c10Chains(r *fw.Rand) c10Chain {
+func c10Chains(r *fw.Rand) c10Chain { return c10ChainK(r, r.Intn(10)) }
+
+// c10ChainK builds chain number k (0-7 the shipped chains, 8-9 a random sub-chain).
+func c10ChainK(r *fw.Rand, k int) c10Chain {
 	tagcopy := func(to string) transform.Mangler { return &tagformat.TagCopyingMangler{SrcTag: "dials", NewTag: to} }
-	switch r.Intn(10) {
+	switch k {
 	case 0:
 		return c10Chain{name: "env", flatten: true, strCast: true, typeChang: true, manglers: []transform.Mangler{
 			transform.NewAliasMangler("dials", "dialsenv"),
@@ -338,8 +341,35 @@ func cases(s string) string { return s }
 
 func runC10(w *fw.Worker) {
 	w.Cases(func(i int, r *fw.Rand) {
+		c10Case(w, i, r, false)
+		// every third case is followed by an episode of its own (own PRNG stream) whose types also have
+		// interface-typed leaves (nil in the defaults, so that pointerification leaves them interfaces)
+		if i%3 == 0 {
+			c10Case(w, i, fw.NewRand(fw.Mix(w.CaseSeed(i), 0x1face)), true)
+		}
+	})
+}
+
+// c10IfacePool: the default leaf pool plus the interface-typed leaf at a weight of about one leaf in five.
+var c10IfacePool = func() []*gen.Leaf {
+	out := append([]*gen.Leaf{}, gen.Leaves...)
+	ifs := gen.LeavesWith(gen.CapIface, 0)
+	for len(out) < len(gen.Leaves)*5/4 {
+		out = append(out, ifs...)
+	}
+	return out
+}()
+
+func c10Case(w *fw.Worker, i int, r *fw.Rand, iface bool) {
+	{
 		ch := c10Chains(r)
 		leavesPool := gen.Leaves
+		if iface {
+			leavesPool = c10IfacePool
+			if !ch.flatten && r.Chance(50) {
+				ch = c10ChainK(r, r.Intn(3)) // the flatten-based chains of the shipped sources
+			}
+		}
 		o := gen.GenOpts{MaxDepth: w.Pick(3, 4) - r.Intn(2), MaxFields: r.Range(2, 6), SkipPct: r.Range(0, 25), StructPct: r.Range(10, 45), TagPct: r.Range(0, 60), Leaves: leavesPool, InitialismPct: 15, HollowPct: 6,
 			TagStyles: []string{"snake", "kebab", "lowerCamel"}}
 		spec := gen.RandomSpec(r, o)
@@ -373,6 +403,24 @@ func runC10(w *fw.Worker) {
 		}
 		c := &gen.Counter{}
 		defaults := spec.RandomDefaults(r, c, 30)
+		// interface-typed leaves: nil in the defaults (the field stays an interface and layers can write it), except in
+		// one case in five, where the defaults hold a value and pointerification replaces the field's type by the
+		// concrete one (such a leaf is then not filled)
+		ifaceLeaves, devirtualised := 0, false
+		if iface {
+			devirtualised = r.Chance(20)
+			for _, lr := range leaves {
+				if lr.Leaf().Leaf.Caps&gen.CapIface == 0 {
+					continue
+				}
+				ifaceLeaves++
+				if !devirtualised {
+					if fv := leafValue(defaults, lr); fv.IsValid() && fv.CanSet() {
+						fv.Set(reflect.Zero(fv.Type()))
+					}
+				}
+			}
+		}
 		ptrType := ptrify.Pointerify(spec.Type(), defaults)
 		tfm := transform.NewTransformer(ptrType, ch.manglers...)
 		tt, terr := tfm.TranslateType()
@@ -403,6 +451,18 @@ func runC10(w *fw.Worker) {
 			return
 		}
 		w.Count("empty_translated_value_checks", 1)
+		if ifaceLeaves > 0 && !devirtualised {
+			w.Count("empty_translated_value_checks_with_interface_leaves", 1)
+			nested := 0
+			for _, lr := range leaves {
+				if lr.Leaf().Leaf.Caps&gen.CapIface != 0 && len(lr.Path) > 1 {
+					nested++
+				}
+			}
+			if nested > 0 && ch.flatten {
+				w.Count("empty_value_checks_flatten_with_nested_interface_leaf", 1)
+			}
+		}
 		// 2. fill a subset by name
 		tfm2 := transform.NewTransformer(ptrType, ch.manglers...)
 		tt2, _ := tfm2.TranslateType()
@@ -418,6 +478,10 @@ func runC10(w *fw.Worker) {
 				continue
 			}
 			if ch.strCast && (lf.Caps&gen.CapEnv == 0 || lf.Text == nil) {
+				pat.WriteByte('-')
+				continue
+			}
+			if lf.Caps&gen.CapIface != 0 && devirtualised {
 				pat.WriteByte('-')
 				continue
 			}
@@ -503,10 +567,10 @@ func runC10(w *fw.Worker) {
 		if len(layer.Vals) > 0 && len(layer.Vals) < len(leaves) {
 			w.Distinct(ch.name + spec.Signature() + "#" + pat.String())
 		}
-		if i%257 == 0 {
+		if i%257 == 0 && !iface {
 			w.Sample(wit)
 		}
-	})
+	}
 }
 
 func c10ErrClass(err error) string {
